@@ -73,14 +73,14 @@ def generate(tier, rng):
             tups += [[a, n + 5] for a in labs[:2]]
             for _ in range(6):
                 tups.append([rng.choice(labs) for _ in range(3)])
-            for cls in ("nm", "light", "eq"):
+            for cls in ("nm", "light", "eq", "falsy"):
                 yield {"fam": "nav", "trees": [t, extra], "ca": tups, "cls": cls}
     for _ in range(60 if tier == "quick" else 800):
         n = rng.randrange(6, 13 if tier == "quick" else 41)
         t = gen.labelled(gen.random_shape(rng, n), rng, True)
         labs = gen.tree_labels(t)
         tups = [[rng.choice(labs) for _ in range(rng.choice([2, 2, 3, 4]))] for _ in range(12)]
-        yield {"fam": "nav", "trees": [t], "ca": tups, "cls": rng.choice(["nm", "light", "eq"])}
+        yield {"fam": "nav", "trees": [t], "ca": tups, "cls": rng.choice(["nm", "light", "eq", "falsy"])}
     for _ in range(150 if tier == "quick" else 2500):
         n0 = rng.randrange(3, 7)
         fl = rng.choice(["nm", "light"])
